@@ -561,8 +561,10 @@ class ProgGen:
         elif ty == "bool":
             rhs = self.pick(sc.bools) if sc.bools and self.chance(50) else self.pick(["True", "False"])
         else:
+            # (Exo's effect analysis cannot lower literal data values written to a config field
+            #  -- internal 'bad case' -- so scalar variables are preferred)
             scal = [b for b in sc.bufs.values() if not b.dims and b.prec == "f32" and b.init]
-            rhs = self.pick(scal).name if scal and self.chance(50) else self.lit()
+            rhs = self.pick(scal).name if scal and self.chance(85) else self.lit()
         return ["wcfg", f[0], f[1], rhs]
 
     def forced_call(self, sc):
@@ -783,6 +785,8 @@ class ProgGen:
         for bi in range(nbuf):
             nm = ARG_POOL[bi]
             rank = self.pick([1, 1, 2, 2, 0] if bi else [1, 1, 2])
+            if self.use_cfg and bi == nbuf - 1 and bi > 0 and self.prec == "f32" and self.chance(60):
+                rank = 0  # a scalar to write into / read from config fields
             dims = []
             for r in range(rank):
                 if sc.sizes and self.chance(50):
